@@ -213,7 +213,7 @@ func TestC02_RapidMutation(t *testing.T) {
 	defer finish(t, rec)
 	cfg := c02GenCfg()
 	runRapid(t, pick(40000, 300000), 2, func(rt *rapid.T) {
-		tree := genExpr(rt, cfg, rapid.IntRange(0, 5).Draw(rt, "depth"))
+		tree := genSized(rt, cfg, rapid.SampledFrom([]int{0, 1, 2, 3, 4, 6, 8, 12, 20, 40}).Draw(rt, "size"))
 		style := rapid.IntRange(0, 2).Draw(rt, "style")
 		toks := printTokens(tree, style, func() bool { return rapid.IntRange(0, 5).Draw(rt, "xp") == 0 })
 		nm := rapid.IntRange(0, 3).Draw(rt, "mutations")
